@@ -206,6 +206,24 @@ def check_rawcopy_buildfields(iname, lead, data):
         if bytes(rc["data"]) != built[rc["offset1"]:rc["offset2"]]:
             out.append({"sig": sig + "/" + nm + "-data-not-the-slice", "case": case,
                         "detail": "while building, %s data %r != message[%d:%d] = %r" % (nm, bytes(rc["data"]), rc["offset1"], rc["offset2"], built[rc["offset1"]:rc["offset2"]])})
+    # the parsed object rebuilt somewhere else (two more leading bytes): what it still carries from the earlier parse
+    # (offset1, offset2, length) must not survive into what this build reports
+    try:
+        log.clear()
+        with watchdog(3):
+            built2 = d2 = None
+            dd = C.Struct("pre" / C.Bytes(lead + 2), "r" / C.RawCopy(C.Struct("t" / C.Tell, "i" / C.RawCopy(inner), "u" / C.Tell)), "z" / C.Byte, "p" / Probe())
+            built2 = dd.build(dict(pre=b"\xee" * (lead + 2), r=parsed["r"], z=7))
+            parsed2 = dd.parse(built2)
+        b2 = log[-1]
+        if fields(b2) != fields(parsed2["r"]):
+            out.append({"sig": sig + "/rebuilt-object-keeps-stale-fields", "case": case,
+                        "detail": "RawCopy(%s): the object parsed at offset %d rebuilt at offset %d reports %r while building, parsing the new message reports %r"
+                                  % (iname, lead, lead + 2, fields(b2), fields(parsed2["r"]))})
+    except Hang:
+        pass
+    except Exception as e:
+        out.append({"sig": sig + "/rebuild-raised-" + type(e).__name__, "case": case, "detail": "rebuilding the parsed object two bytes further raised %r" % (e,)})
     return ("bad" if out else "ok"), out
 
 
